@@ -295,8 +295,6 @@ impl<R: Rng + Send> Multiplexor<R> {
             if let Some(s) = stream {
                 return Ok(s);
             }
-            // For testing purposes. Make sure the previous flow ID is gone
-            debug_assert!(!self.flows.read().contains_key(&flow_id));
         }
         Err(Error::FlowIdRejected)
     }
